@@ -255,4 +255,10 @@ theorem c06_blind_open_is_source_open (f : Bytes) :
         (fun r uuid => [⟨uuid, r.1, r.2⟩]) :=
   gen_blindOpen f
 
+/-- **The header decoder whose totality `packHeader_decode_no_crash` proves is the source's**: `PackHeader::parse`
+    translated on every run equals `PackHeader.decode` on every 60-byte block. -/
+theorem c06_pack_header_parser_is_source_parser (bs : Bytes) (h60 : bs.length = 60) :
+    (Generated.packHeaderParse bs).map' (fun r => tupleToHeader r.1) = PackHeader.decode bs :=
+  gen_packHeaderParse bs h60
+
 end Jubako
